@@ -125,6 +125,25 @@ func ruleCases(rng *rand.Rand) []opCase {
 		}, -2, 2},
 		{"Concat", 2, func(rng *rand.Rand, b []int) ([][]int, bool) { return [][]int{b, b}, len(b) >= 1 },
 			func(xs []tensor.Tensor) (tensor.Tensor, error) { return tensor.Concat(xs, len(xs[0].Shape())-1) }, -2, 2},
+		// three operands of different extents along the concatenation dimension (the offsets of the third one are where
+		// a rewritten offset computation slips: seed C02-5), along the last and along the first dimension
+		{"Concat3", 3, func(rng *rand.Rand, b []int) ([][]int, bool) {
+			if len(b) < 1 {
+				return nil, false
+			}
+			l := len(b) - 1
+			b2, b3 := append([]int{}, b...), append([]int{}, b...)
+			b2[l], b3[l] = b[l]%3+1, (b[l]+1)%3+1
+			return [][]int{b, b2, b3}, true
+		}, func(xs []tensor.Tensor) (tensor.Tensor, error) { return tensor.Concat(xs, len(xs[0].Shape())-1) }, -2, 2},
+		{"Concat3first", 3, func(rng *rand.Rand, b []int) ([][]int, bool) {
+			if len(b) < 1 {
+				return nil, false
+			}
+			b2, b3 := append([]int{}, b...), append([]int{}, b...)
+			b2[0], b3[0] = b[0]%3+1, (b[0]+1)%3+1
+			return [][]int{b, b2, b3}, true
+		}, func(xs []tensor.Tensor) (tensor.Tensor, error) { return tensor.Concat(xs, 0) }, -2, 2},
 	}
 	cs = append(cs, along("SumAlong", func(x tensor.Tensor, d int) (tensor.Tensor, error) { return x.SumAlong(d) })...)
 	cs = append(cs, along("MaxAlong", func(x tensor.Tensor, d int) (tensor.Tensor, error) { return x.MaxAlong(d) })...)
